@@ -175,4 +175,71 @@ theorem C09_same_bytes (c : StreamCfg) (o : Opts) (h : Hdr) (k₁ k₂ : Kind) (
     rw [List.map_map]; rfl
   rw [← this]; rfl
 
+/-! ### the two documented caveats of `encoder.New` are NECESSARY (kernel-evaluated witnesses)
+
+`C09_same_bytes_batch` assumes (`hend`) that the destination is positioned at its end and (`hown`) that a pure
+write-at destination holds only what this encoder wrote. The model follows the code outside these assumptions too
+(family enc-writers runs write-at destinations with foreign content: model and code agree on the corruption); here
+is what the encoder then writes. In all three cases every call reports SUCCESS. -/
+
+namespace Caveat
+def m1 : WMsg := ⟨20, [⟨151, 2, 3, [0x16]⟩], []⟩
+def o : Opts := ⟨0, false, 1⟩
+def h : Hdr := ⟨14, 16, 21158⟩
+/-- twenty foreign bytes -/
+def pre : Bytes := List.replicate 20 0xEE
+def spec : Bytes := encodeChain o [(h, [m1])]
+end Caveat
+
+/-- **`hown` is necessary** ("When using io.WriterAt, the given io.Writer is expected to be empty"): a write-at
+destination that already holds 20 foreign bytes and is positioned at its end, given to a NEW encoder (`e.n = 0`). The
+27 bytes of the sequence are appended correctly, but the header rewrite goes to offset `lastFileHeaderPos = 0` — the
+encoder's own count —: the final header overwrites the first 14 FOREIGN bytes, and the sequence's real header keeps the
+placeholder data size 0. `Encode` reports success; the content is not `pre ++ encodeChain`. With `n₀ = |pre|`
+(`hown`) the same destination ends up correct (`C09_same_bytes_batch`). -/
+theorem C09_caveat_writeAt_foreign_witness :
+    let r := encodeChainW noFault Caveat.o (Enc.new Caveat.o .at 0 ⟨Caveat.pre, 20, []⟩) [⟨Caveat.h, 0, [Caveat.m1]⟩]
+    r.2 = (1, true) ∧
+    r.1.w.d.content ≠ Caveat.pre ++ Caveat.spec ∧
+    r.1.w.d.content = (Caveat.spec.take 14 ++ Caveat.pre.drop 14) ++ (hdrBytes Caveat.h 0 ++ Caveat.spec.drop 14) ∧
+    (encodeChainW noFault Caveat.o (encOn Caveat.o .at 0 ⟨Caveat.pre, 20, []⟩ 20) [⟨Caveat.h, 0, [Caveat.m1]⟩]).1.w.d.content =
+      Caveat.pre ++ Caveat.spec := by
+  decide +kernel
+
+/-- **`hend` is necessary**, plain writer: a destination holding 40 bytes, positioned at its START (a file opened
+without seeking to its end): the sequence overwrites the first 27 bytes; success is reported. -/
+theorem C09_caveat_not_at_end_witness :
+    let d₀ : Dest := ⟨List.replicate 40 0xEE, 0, []⟩
+    let r := encodeChainW noFault Caveat.o (Enc.new Caveat.o .plain 0 d₀) [⟨Caveat.h, 0, [Caveat.m1]⟩]
+    r.2 = (1, true) ∧ r.1.w.d.content ≠ d₀.content ++ Caveat.spec ∧
+    r.1.w.d.content = Caveat.spec ++ d₀.content.drop 27 := by
+  decide +kernel
+
+/-- **`hend` is necessary even when `hown` holds**, write-at destination behind a 4-byte buffer: 20 bytes of the
+encoder's own (`n₀ = 20`) but positioned at offset 5. The writes go to offsets 5…31, the header rewrite to offset
+`lastFileHeaderPos = 20` — into the middle of the records. A WriteSeeker in the same situation is consistent with
+itself (relative seeks): it overwrites from offset 5 and the bytes it wrote ARE the sequence. Success is reported by both. -/
+theorem C09_caveat_writeAt_not_at_end_witness :
+    let rA := encodeChainW noFault Caveat.o (encOn Caveat.o .at 4 ⟨Caveat.pre, 5, []⟩ 20) [⟨Caveat.h, 0, [Caveat.m1]⟩]
+    let rS := encodeChainW noFault Caveat.o (encOn Caveat.o .seek 4 ⟨Caveat.pre, 5, []⟩ 20) [⟨Caveat.h, 0, [Caveat.m1]⟩]
+    rA.2 = (1, true) ∧ rS.2 = (1, true) ∧
+    rS.1.w.d.content = Caveat.pre.take 5 ++ Caveat.spec ∧
+    rA.1.w.d.content ≠ Caveat.pre.take 5 ++ Caveat.spec ∧
+    rA.1.w.d.content = Caveat.pre.take 5 ++ hdrBytes Caveat.h 0 ++ (Caveat.spec.drop 14).take 1 ++ Caveat.spec.take 14 := by
+  decide +kernel
+
+/-- **"If io.Writer is an *os.File opened with O_APPEND, the behavior of the Encoder is not specified"** — what it is:
+the operations the encoder issues do not depend on where the destination puts the bytes, so on an `O_APPEND` file
+(`Dest.runAppend`: every `Write` lands at the end) the seek-rewrite of an `*os.File` (a WriteSeeker) APPENDS the final
+header: the file is the sequence with its placeholder header (data size 0) followed by 14 more bytes — 41 instead of 27
+— while every call reports success. On an ordinary file the same operations give the sequence (`Dest.run`). -/
+theorem C09_caveat_append_mode_witness :
+    let r := encodeChainW noFault Caveat.o (Enc.new Caveat.o .both 0 ⟨[], 0, []⟩) [⟨Caveat.h, 0, [Caveat.m1]⟩]
+    r.2 = (1, true) ∧
+    ((⟨[], 0, []⟩ : Dest).run r.1.w.d.log.reverse).content = Caveat.spec ∧
+    ((⟨[], 0, []⟩ : Dest).runAppend r.1.w.d.log.reverse).content =
+      (hdrBytes Caveat.h 0 ++ Caveat.spec.drop 14) ++ Caveat.spec.take 14 ∧
+    ((⟨[], 0, []⟩ : Dest).runAppend r.1.w.d.log.reverse).content ≠ Caveat.spec := by
+  decide +kernel
+
 end Fit.C09
